@@ -184,7 +184,7 @@ REG.contract(
     params=dict(self=Obj("Container"), item=Str), result=Bool, requires=CONT_OK,
     let="k = idx_of_id(%s, item)" % G,
     # a key is a member iff it is the id of a member or the name of a member
-    ensures=[("in.key", "result == ({0} != 0 and ((uuid_text(item) and k >= 0) or link({0}, item) != 0))".format(G), "prop")],
+    ensures=[("in.key", "result == key_member(self, item)", "prop")],
     prop_clauses=["in.key"])
 
 
@@ -203,12 +203,23 @@ def member_by_identity(ex, p, cont, item):
     return VBool(z3.And(g != 0, p.sigma["link"][g][nm] != 0, _eid(p, p.sigma["link"][g][nm]) == _eid(p, o)))
 
 
+@REG.specfunc()
+def key_member(ex, p, cont, key):
+    """a text key is a member iff it is the id of a member or the name of a member"""
+    from sidecar_a_common import field, gid
+    from sidecar_c11_file import _UUIDTEXT
+    g = gid(ex, p, field(ex, p, cont, VStr("_backend")))
+    k = idx_of_id(ex, p, g, key)
+    return VBool(z3.And(g.t != 0, z3.Or(z3.And(_UUIDTEXT(key.t), k.t >= 0), p.sigma["link"][g.t][key.t] != 0)))
+
+
 REG.contract(
     "nixio.container.Container.__contains__", assumed=True, props=[],
     params=dict(self=Obj("Container"), item=Dyn), result=Bool,
-    requires=["is_obj(item)"],
-    raises={"TypeError": ("not inst_of(item, field(self, '_itemclass'))", "helper")},
-    ensures=["result == member_by_identity(self, item)"],
+    requires=["is_obj(item) or is_str(item)"],
+    raises={"TypeError": ("is_obj(item) and not inst_of(item, field(self, '_itemclass'))", "helper")},
+    ensures=["is_obj(item) implies result == member_by_identity(self, item)",
+             "is_str(item) implies result == key_member(self, as_str(item))"],
     note="summary for entity arguments; verified as Container.__contains__#entity (and #key for text keys)")
 
 # ---- C04: what a delete hands to the sweeper ----------------------------------------------------------------------------------------------
